@@ -1,5 +1,6 @@
 import SC.Proofs.SpecIndex
 import SC.Proofs.IdxRune2
+import SC.Proofs.SpecFirstBy
 /-!
 # C10 — single-character searches find the first/last member of the character's orbit
 -/
@@ -39,6 +40,33 @@ theorem indexRune_first (s : Bytes) (r : Int) (h : S.validRuneI r = true) :
     boundary whose code point is `r` (arbitrary haystack bytes) -/
 theorem byte_search_is_rune_search (s : Bytes) (r : Nat) (hv : validRune r) :
     IsFirstRune s r (A.bytesIndex s (encode r)) := bytesIndex_isFirstRune s r hv
+
+/-! ### Refinement: the transliterated algorithms
+
+`indexRuneCase` (all four branches: ASCII, U+FFFD, invalid, and the 2/3/4-byte last-byte search with its
+`fails`/`Cutover` hand-over to `IndexString` resp. the portable tail loop), `indexByte` (byte kernel +
+K/k→U+212A, S/s→U+017F), `indexRune2`, `indexRune` (FoldMap loop over up to four orbit members,
+ToUpperLower pair, single rune) — for every haystack, every `int32` rune, both `NativeIndex` settings. -/
+
+/-- `indexRuneCase` finds the first boundary holding the (case-sensitive) rune -/
+theorem indexRuneCase_first (cfg : A.Cfg) (s : Bytes) (r : Nat) (hv : validRune r) (hr : r ≠ 0xFFFD) :
+    IsFirstRune s r (A.indexRuneCase cfg s (r : Int)) := A.indexRuneCase_isFirstRune cfg s r hv hr
+
+/-- `indexRune` returns the first member of the orbit *and the width of the code point found* (the skip
+    loop of `Index` advances by it) -/
+theorem indexRune_first (cfg : A.Cfg) (s : Bytes) (u : Nat) (hv : validRune u) (hu : u ≠ 0xFFFD) :
+    A.IsFirstBy (fun x => Fold.caseFold x == Fold.caseFold u) s (A.indexRune cfg s (u : Int)) :=
+  A.indexRune_firstBy cfg s u hv hu
+
+/-- `indexByte` on an ASCII byte: first member of its orbit (other case, U+212A for K/k, U+017F for S/s) -/
+theorem indexByte_first (cfg : A.Cfg) (s : Bytes) (c : UInt8) (hc : c < 0x80) :
+    A.IsFirstBy (fun x => Fold.caseFold x == Fold.caseFold c.toNat) s (A.indexByte cfg s c) :=
+  A.indexByte_firstBy cfg s c hc
+
+/-- `IndexRune` / `ContainsRune` equal the specification: every byte string, every `int32` -/
+theorem indexRune_refines (cfg : A.Cfg) (s : Bytes) (r : Int) : A.IndexRune cfg s r = S.indexRune s r := A.IndexRune_eq cfg s r
+theorem containsRune_refines (cfg : A.Cfg) (s : Bytes) (r : Int) : A.ContainsRune cfg s r = S.containsRune s r :=
+  A.ContainsRune_eq cfg s r
 
 example : S.indexRune [0x78, 0xE2, 0x84, 0xAA] 0x6B = 1 ∧ S.indexRune [0x78, 0xFF] 0xFFFD = 1 ∧
     S.indexByte [0x78, 0xC5, 0xBF] 0x53 = 1 ∧ S.lastIndexByte [0x6B, 0xE2, 0x84, 0xAA, 0x78] 0x4B = 1 ∧
